@@ -329,6 +329,7 @@ def run_scenario(scn, *, bus="sync", chooser=None, seed=0, max_steps=None, use_s
                 delayed(start_delays.get(name, 0), lambda comp=comp: comp.run_forever(Consumer, Producer), name),
                 name=f"tickit-comp-{name}"))
         info["tasks"] = tasks
+        info["components"] = comps
 
         # stimuli at virtual real times (relative to start)
         async def stim_task(st):
